@@ -101,6 +101,14 @@ func checkC03(a *checkArgs, r *Result) error {
 	if err := ringTie(r, dp, rand.New(rand.NewSource(a.seed+77)), nring); err != nil {
 		return err
 	}
+	// the translator behind Gen/GoSrc.lean (range decoder and friends) against the Go code
+	nx := 400
+	if a.tier == "thorough" {
+		nx = 4000
+	}
+	if err := xlateTie(r, dp, rand.New(rand.NewSource(a.seed+912)), nx); err != nil {
+		return err
+	}
 	for i := 0; i < n; i++ {
 		s, c, desc, err := genXzStream(rng, dp, maxOps)
 		if err != nil {
